@@ -104,6 +104,9 @@ type Geom struct {
 	// How selects the construction route in Build (0 New*Flat, 1 SetCoords,
 	// 2 repeated Push); it is not part of the value.
 	How int `json:"how,omitempty"`
+	// Same > 0 on member i of a collection: Build puts the *same object* as
+	// member Same-1 (< i) there a second time; the value is that member's.
+	Same int `json:"same,omitempty"`
 }
 
 // Layout returns the library layout value of the model's layout number.
@@ -181,7 +184,16 @@ func (m *Geom) Norm() *Geom {
 	case MPg:
 	case GC:
 		m.P = nil
-		for _, c := range m.G {
+		for i, c := range m.G {
+			if c.Same < 0 || c.Same > i {
+				c.Same = 0
+			}
+			if c.Same > 0 {
+				k := c.Same
+				*c = *m.G[k-1].Clone()
+				c.Same = k
+				continue
+			}
 			c.Norm()
 		}
 	}
@@ -211,6 +223,12 @@ func (m *Geom) Norm() *Geom {
 // collections before they are filled.
 func fillTopDown(gc *geom.GeometryCollection, m *Geom) error {
 	for _, c := range m.G {
+		if c.Same > 0 {
+			if err := gc.Push(gc.Geom(c.Same - 1)); err != nil {
+				return err
+			}
+			continue
+		}
 		if c.T == GC {
 			inner := geom.NewGeometryCollection()
 			if err := gc.Push(inner); err != nil {
@@ -243,7 +261,7 @@ func (m *Geom) Clone() *Geom {
 	if m == nil {
 		return nil
 	}
-	c := &Geom{T: m.T, L: m.L, S: m.S, Fixed: m.Fixed, How: m.How}
+	c := &Geom{T: m.T, L: m.L, S: m.S, Fixed: m.Fixed, How: m.How, Same: m.Same}
 	if m.P != nil {
 		c.P = make([][][]Coord, len(m.P))
 		for i := range m.P {
@@ -625,6 +643,10 @@ func Build(m *Geom) (g geom.T, err error) {
 		gc := geom.NewGeometryCollection()
 		var kids []geom.T
 		for _, c := range m.G {
+			if c.Same > 0 {
+				kids = append(kids, kids[c.Same-1])
+				continue
+			}
 			k, err := Build(c)
 			if err != nil {
 				return nil, err
